@@ -15,6 +15,8 @@ import MpsVerif.Drv.IterQueue
 import MpsVerif.Drv.Frame
 import MpsVerif.Drv.Mux
 import MpsVerif.Drv.Pipe
+import MpsVerif.Drv.ProcOutcome
+import MpsVerif.Drv.LogPipe
 
 def main (args : List String) : IO UInt32 := do
   match args with
@@ -37,4 +39,6 @@ def main (args : List String) : IO UInt32 := do
   | ["frame"] => Frame.Drv.main; return 0
   | ["mux"] => Mux.Drv.main; return 0
   | ["pipe"] => Pipe.Drv.main; return 0
+  | ["procoutcome"] => ProcOutcome.Drv.main; return 0
+  | ["logpipe"] => LogPipe.Drv.main; return 0
   | _ => IO.eprintln s!"usage: drv <model>   (see lean/Main.lean for the list of models)"; return 2
